@@ -377,7 +377,11 @@ fn run_h(opts: &Opts, body: &str, tmp: &str, id: &str, show: bool) -> (String, S
         planes.aircrafts = table.clone();
         let t0 = std::time::Instant::now();
         let h = spawn_reader_thread(args, planes);
-        match h.join() {
+        // a reader that never comes back (e.g. a lock taken twice) is caught by the process-wide watchdog (see main)
+        BUSY_SINCE.store(now_ms(), std::sync::atomic::Ordering::SeqCst);
+        let joined = h.join();
+        BUSY_SINCE.store(0, std::sync::atomic::Ordering::SeqCst);
+        match joined {
             Ok(Ok(())) => {}
             Ok(Err(e)) => {
                 outcome = format!("io:{:?}", e.kind());
@@ -549,6 +553,13 @@ fn run_k(body: &str) -> (String, String) {
     ("ok".into(), o)
 }
 
+static BUSY_SINCE: std::sync::atomic::AtomicU64 = std::sync::atomic::AtomicU64::new(0);
+static CURRENT_CASE: std::sync::Mutex<String> = std::sync::Mutex::new(String::new());
+
+fn now_ms() -> u64 {
+    std::time::SystemTime::now().duration_since(std::time::UNIX_EPOCH).map(|d| d.as_millis() as u64).unwrap_or(1)
+}
+
 fn main() {
     let a: Vec<String> = std::env::args().collect();
     if a.len() < 4 {
@@ -559,6 +570,18 @@ fn main() {
     let f = std::io::BufReader::new(std::fs::File::open(&a[1]).expect("cases"));
     let mut out = std::io::BufWriter::new(std::fs::File::create(&a[2]).expect("out"));
     let tmp = &a[3];
+    // watchdog: if one reader run takes longer than 30 s the case is recorded as "hang" in <out>.hang and the process
+    // ends (the stuck thread cannot be killed); the cases after it in this shard stay unreported
+    let hang_path = format!("{}.hang", &a[2]);
+    std::thread::spawn(move || loop {
+        std::thread::sleep(std::time::Duration::from_millis(250));
+        let b = BUSY_SINCE.load(std::sync::atomic::Ordering::SeqCst);
+        if b != 0 && now_ms().saturating_sub(b) > 30_000 {
+            let id = CURRENT_CASE.lock().map(|g| g.clone()).unwrap_or_default();
+            let _ = std::fs::write(&hang_path, format!("{}\thang\treader thread still running after 30 s\n", id));
+            std::process::exit(0);
+        }
+    });
     for line in f.lines() {
         let line = line.expect("line");
         if line.is_empty() || line.starts_with('%') {
@@ -569,6 +592,9 @@ fn main() {
             continue;
         }
         let (id, kind, opts, body) = (parts[0], parts[1], parts[2], parts[3]);
+        if let Ok(mut g) = CURRENT_CASE.lock() {
+            *g = id.to_string();
+        }
         let opts = parse_opts(opts);
         let (outcome, obs) = match kind {
             "H" => run_h(&opts, body, tmp, id, false),
@@ -580,5 +606,6 @@ fn main() {
             _ => ("skip".into(), String::new()),
         };
         writeln!(out, "{}\t{}\t{}", id, outcome, obs).expect("write");
+        out.flush().expect("flush");
     }
 }
